@@ -160,6 +160,10 @@ props["C07"] = dict(title="No program can make the interpreter terminate abnorma
   assumptions=["unbounded user recursion ends in a host stack overflow: excluded by the property's domain", "fmt on a self-containing slice/map is modelled as what it is: unbounded recursion ending in a runtime abort (VH_cyclic)", "allocation failure and faults inside stubbed library code are outside"],
   quick=[J(I,"VH_cyclic",w) for w in range(4)], thorough=[J(I,"VH_cyclic",w) for w in range(4)], panics_only=True, include=[p for p in ["C01","C02","C03","C04","C05","C06","C08","C09","C10","C11","C12","C14","C15","C16","C17","C18","C19","C20"]])
 
+props["C01"]["selftest"] = [J("parser","VH_selftest")]
+props["C08"]["selftest"] = [J("parser","VH_selftest"), J("lexer","VH_selftest")]
+for pid in ("C02","C04","C05","C06","C11","C12","C15"):
+    props[pid]["selftest"] = [J(I,"VH_selftest")]
 json.dump(props, open("/verif/harness/jobs.json","w"), indent=1, ensure_ascii=False)
 print("jobs.json written:", {k:(len(v["quick"]),len(v.get("thorough",[]))) for k,v in props.items()})
 
